@@ -261,6 +261,21 @@ def _c07_extra(seed, quick):
     return conc_shards("C07", seed, "same-key", 24 if quick else 400, 40 if quick else 400, shards=2) + conc_shards("C07", seed, "held-client", 600 if quick else 20000, 40 if quick else 400, shards=2)
 
 
+def _c03_extra(seed, quick):
+    # free-running concurrent histories without memory pressure (final value of every key whose last write was not overlapped) and the
+    # directed sweeper-vs-reput race
+    return conc_shards("C03", seed, "mixed", 30 if quick else 600, 40 if quick else 400, shards=3) + conc_shards("C03", seed, "sweep-reput", 60 if quick else 3000, 40 if quick else 400, shards=1)
+
+
+def _c09_extra(seed, quick):
+    # expiry under concurrency: clients record the harness clock around every call while an advancer thread moves it
+    return conc_shards("C09", seed, "mixed", 30 if quick else 600, 40 if quick else 400, shards=4)
+
+
+def _c10_extra(seed, quick):
+    return conc_shards("C10", seed, "sweep-reput", 60 if quick else 3000, 40 if quick else 400, shards=2) + conc_shards("C10", seed, "update-sweep", 120 if quick else 3000, 40 if quick else 400, shards=2)
+
+
 def _c16_extra(seed, quick):
     # counters are bumped from many client threads at once: the identities are re-evaluated at the quiescent point of concurrent runs
     return conc_shards("C16", seed, "mixed", 25 if quick else 500, 40 if quick else 400, shards=4)
@@ -274,8 +289,12 @@ SEQ_ONLY = {
     "C03": {
         "explanation": "No-pressure S-mode histories (sum of the maximum weight of every key fits the cache) with 0-3 noise threads working on "
                        "disjoint keys, sketch ageing (counters down to 2), 1 ms sweeps and clock movement; every key of the owner is read after "
-                       "every step and must return its latest acknowledged value while the model says it is live.",
-        "require": ["reads_returned_value", "keys_swept", "noise_ops"],
+                       "every step and must return its latest acknowledged value while the model says it is live. A third of the histories keep the cache filled to exactly the demanded "
+                       "maximum (weights not judged) so that weight kept charged by mistake turns into forbidden eviction or rejection. C-mode adds free-running concurrent runs "
+                       "without pressure (a key whose last put/delete began after every other write of it was acknowledged must end in that state) and the directed race "
+                       "'sweeper evicting an expired incarnation while the key is deleted and put again'.",
+        "require": ["reads_returned_value", "keys_swept", "noise_ops", "final_values_checked", "reput_presence_checks"],
+        "extra_shards": _c03_extra,
     },
     "C04": {
         "explanation": "S-mode: deletes of keys in every state (never put, live, live+ttl, expired, already deleted, swept), delete/put/delete sequences, exact model "
@@ -291,7 +310,8 @@ SEQ_ONLY = {
                        "key's expiry, the key is gone from store, weight map and index and its weight is released. Safety half after every step: every id the sweeper "
                        "evicts (SweepCompleted event) must belong to a key whose current expiry is earlier than the sweep's clock reading; a live key must never be "
                        "missing; index entries must match the stored expiry and shard; old index entries of earlier incarnations coming due are counted.",
-        "require": ["keys_swept", "critical:full-cycle", "sweep_evicted_ids", "deadlines_crossed"],
+        "require": ["keys_swept", "critical:full-cycle", "sweep_evicted_ids", "deadlines_crossed", "reputs_completed_while_the_sweeper_was_stretched"],
+        "extra_shards": _c10_extra,
     },
     "C07": {
         "extra_shards": _c07_extra,
@@ -309,8 +329,10 @@ SEQ_ONLY = {
     "C09": {
         "explanation": "TTL alphabet {0, 1 ns, 1 s - 1 ns, 1 s, shards s, 1 h, 2^32 s, u32::MAX s, random}, clock jumps landing 1 ns before / 1 ns after / far "
                        "after a deadline, TTL add/change/remove followed by jumps across the old and new deadline, sweeper at 1 ms or never (1 h tick), "
-                       "2-256 shards; every read variant must serve the value strictly before the deadline and never after it.",
-        "require": ["reads_before_deadline", "reads_after_deadline", "deadlines_crossed"],
+                       "2-256 shards; every read variant must serve the value strictly before the deadline and never after it. C-mode adds expiry under concurrency: clients record the "
+                       "harness clock around every call while an advancer thread moves it; a read that began after (clock at the write's acknowledgement + ttl) must not return that value.",
+        "require": ["reads_before_deadline", "reads_after_deadline", "deadlines_crossed", "reads_of_values_with_a_known_deadline"],
+        "extra_shards": _c09_extra,
     },
     "C16": {
         "explanation": "After every step of S-mode histories (no-pressure and pressure, all-hit and all-miss prefixes, weight decreases through upserts, "
